@@ -29,7 +29,7 @@ def tables(tier, w):
     return _cache[key]
 
 
-LAYOUT_SPECS = [("MC_ValveLayout", "MC_ValveLayout.cfg")]
+LAYOUT_SPECS = [("MC_ValveLayout", "MC_ValveLayout.cfg"), ("MC_ProtoLayout", "MC_ProtoLayout.cfg")]
 
 
 def behaviours(module, cfg, out, name):
@@ -61,3 +61,31 @@ def std_cov(mc, reps, extra=None, validated=0):
     if extra:
         cov.update(extra)
     return cov
+
+
+def layout_property(pid, tier, seed, protos, title_rule, more=None, level="model_checking"):
+    """Common shape of C03-C07: every layout shape TLC enumerates for `protos`, concretised with random server
+    states, replayed through the real entry point and compared field by field."""
+    import time
+    t0 = time.time()
+    build_harness()
+    w = workdir(pid.lower())
+    v = Verdict(pid)
+    quick = tier != "thorough"
+    lay, tp, st = tables(tier, w)
+    r1 = vh(["proto-layouts", "--layouts", lay, "--protos", ",".join(protos), "--reps", 3 if quick else 40, "--seed", seed],
+            name=pid.lower())
+    v.add_report(r1, "layouts")
+    reps = [r1]
+    mc = []
+    if more:
+        reps2, mc2 = more(tier, seed, w, v, lay, tp)
+        reps += reps2
+        mc += mc2
+    nviol, _ = v.finish()
+    cov = std_cov(st + mc, reps, {"rule": title_rule, "exhaustive": False})
+    write_evidence(pid, tier, seed, level, cov, time.time() - t0, nviol,
+                   ["layout facts are those of spec/ProtoLayout.tla (sources and confidence: DESIGN Appendix C)",
+                    "field values are sampled from each wire type's domain (structure is enumerated exhaustively by TLC)",
+                    "scripted transport hook"])
+    return 1 if nviol else 0
